@@ -14,7 +14,8 @@ use prelude::Postfix;
 
 use crate::{
     generate_artifacts::QUERY_TEXT, normalization_ast_text::generate_normalization_ast_text,
-    operation_text::generate_operation_text, persisted_documents::PersistedDocuments,
+    operation_text::{generate_operation_text, query_text_as_single_quoted_js_string_body},
+    persisted_documents::PersistedDocuments,
 };
 
 #[expect(clippy::too_many_arguments)]
@@ -191,7 +192,11 @@ pub(crate) fn get_paths_and_contents_for_imperatively_loaded_field<
 
     vec![
         ArtifactPathAndContent {
-            file_content: format!("export default '{query_text}';").into(),
+            file_content: format!(
+                "export default '{}';",
+                query_text_as_single_quoted_js_string_body(&query_text.0)
+            )
+            .into(),
             artifact_path: ArtifactPath {
                 file_name: query_text_file_name_with_extension,
                 type_and_field: EntityNameAndSelectableName {
